@@ -41,8 +41,10 @@ def one_trace(exe, args, use_driver=True):
     """returns dict(rc, lines, diff=(i, impl, model)|None, oracle=[...], summary={}, stderr)"""
     rc, out, err = run_harness(exe, args)
     lines = out.splitlines()
-    res = dict(rc=rc, lines=lines, diff=None, oracle=[l for l in lines if l.startswith("oracle-fail")], stderr=err[-1500:],
-               summary={})
+    res = dict(rc=rc, lines=lines, diff=None,
+               oracle=[l for l in lines if l.startswith("oracle-fail") and not l.startswith("oracle-fail known-candidate ")],
+               findings=[l[len("oracle-fail known-candidate "):] for l in lines if l.startswith("oracle-fail known-candidate ")],
+               stderr=err[-1500:], summary={})
     for l in lines:
         if l.startswith("summary"):
             for t in l.split()[1:]:
@@ -98,6 +100,16 @@ def branches_not_reached(hit):
 
 
 HARNESS_LIMIT = 77  # the instrumented region ran out of space: the run says nothing about the library
+
+
+def finding_properties(kid):
+    """properties under which known_findings.json lists the finding `kid` (any status)"""
+    import json
+    p = os.path.join(os.path.dirname(os.path.dirname(os.path.abspath(__file__))), "known_findings.json")
+    try:
+        return set(k["property"] for k in json.load(open(p))["findings"] if k.get("id") == kid)
+    except Exception:
+        return set()
 
 
 def failing(res):
@@ -162,6 +174,22 @@ def run_subjects(ctx, pid_tag, exe_by_cfg, jobs, classify=None, use_driver=True,
                 br[k_] = br.get(k_, 0) + v_
             if failing(res):
                 fails.append((j, res))
+            for f in res.get("findings", []):
+                # an occurrence of a recorded finding, recognised by the harness from its specific mechanism: KNOWN-FINDING if
+                # known_findings.json lists it for this property, a violation otherwise
+                kid = f.split()[0]
+                props = finding_properties(kid)
+                if props and ctx.pid not in props:
+                    continue  # a recorded finding of another property (it is reported there)
+                seen = ctx.coverage.setdefault("finding_occurrences", {})
+                seen[kid] = seen.get(kid, 0) + 1
+                if seen[kid] == 1:
+                    exe = exe_by_cfg[j["cfg"]]
+                    ctx.violation("%s-%s-%s-%s-%s" % (pid_tag, kid, j["subject"], j["cfg"], j["seed"]),
+                                  "%s [%s] %s" % (j["subject"], j["cfg"], f),
+                                  dict(subject=j["subject"], cfg=j["cfg"], seed=j["seed"], nops=j["nops"], finding=f,
+                                       replay_cmd="%s %s %s %d %s" % (exe, j["subject"], j["seed"], j["nops"], " ".join(map(str, j.get("extra", []))))),
+                                  signature=dict(oracle="finding", known=kid))
     for key, st in stats.items():
         ctx.add_cov(key, st["lines"], st["ok"] + st["null"] + st["throws"], traces=st["traces"], extra=st)
     if not fails:
